@@ -241,6 +241,8 @@ def run(ctx: Context, rep) -> None:
         "the input stream is chained with an endless source of sentinels and "
         "turned into a single iterator, so every enqueue of 'the next input' "
         "succeeds and every worker eventually receives a sentinel")
+    from sa.norm import expand
+    from sa.rules.common import is_iterator_expr
     chain = None
     for n in imap.body_nodes():
         if isinstance(n, ast.Call) and ctx.is_call(imap, n, "itertools.chain"):
@@ -248,19 +250,21 @@ def run(ctx: Context, rep) -> None:
     ok_chain = False
     if chain is not None and len(chain.args) == 2:
         first, second = chain.args
+        second = expand(imap, second)
         ok_first = isinstance(first, ast.Name) and first.id == "iterable"
         ok_second = isinstance(second, ast.Call) and (
-            (ctx.is_call(imap, second, "itertools.cycle") and
+            (ast.unparse(second.func).endswith("cycle") and second.args and
              isinstance(second.args[0], (ast.List, ast.Tuple)) and
              len(second.args[0].elts) >= 1 and
              all("StopSentinel" in norm(e) for e in second.args[0].elts)) or
-            (ctx.is_call(imap, second, "itertools.repeat") and
+            (ast.unparse(second.func).endswith("repeat") and
              len(second.args) == 1 and "StopSentinel" in norm(second.args[0])))
         ok_chain = ok_first and ok_second
     rep.ob("C13.tail", ok_chain, loc=imap.loc(chain) if chain else imap.loc(),
            where=imap.qualname, construct=short(chain, 100),
            message="inputs followed by endless sentinels")
-    # single iterator: the variable pulled from is bound to iter(...)
+    # single iterator: the variable pulled from is bound to a one-shot
+    # iterator object
     pulled = set()
     for p in puts:
         for c in ast.walk(p.ast):
@@ -271,13 +275,15 @@ def run(ctx: Context, rep) -> None:
         if isinstance(n, ast.For) and isinstance(n.iter, ast.Call) and \
                 isinstance(n.iter.func, ast.Name) and n.iter.func.id == "enumerate":
             pulled |= names_in(n.iter.args[0])
-    iters = [n for n in imap.body_nodes() if isinstance(n, ast.Assign) and
-             isinstance(n.value, ast.Call) and isinstance(
-                 n.value.func, ast.Name) and n.value.func.id == "iter"]
-    bound = {t.id for n in iters for t in n.targets if isinstance(t, ast.Name)}
+    iters = [n for n in imap.body_nodes() if isinstance(n, (ast.Assign,
+                                                            ast.AnnAssign))
+             and is_iterator_expr(ctx, imap, n.value)]
+    bound = {t.id for n in iters for t in (n.targets if isinstance(
+        n, ast.Assign) else [n.target]) if isinstance(t, ast.Name)}
     rep.ob("C13.tail", bool(pulled) and pulled <= bound, loc=imap.loc(),
            where=imap.qualname,
-           construct=f"pulled from {sorted(pulled)}, iter() bound {sorted(bound)}",
+           construct=f"pulled from {sorted(pulled)}, bound to an iterator "
+           f"object: {sorted(bound & pulled)}",
            message="prefill and refill pull from one shared iterator object")
 
     # -- queue ownership ----------------------------------------------------------------
@@ -406,10 +412,13 @@ SELFTESTS = [
     dict(rule="C13.tail", name="no-sentinel-tail", expect="fire", path=_LP,
          old="            iterable, itertools.cycle([StopSentinel()]))",
          new="            iterable, [StopSentinel()] * self._threads)"),
+    dict(rule="C13.tail", name="pulled-from-list", expect="fire", path=_LP,
+         old="        iterator_with_stops = iter(iterator_with_stops)\n",
+         new="        iterator_with_stops = list(itertools.islice(iterator_with_stops, 10 * self._threads))\n"),
     dict(rule="C13.tail", name="repeat-twin", expect="silent", path=_LP,
          old="            iterable, itertools.cycle([StopSentinel()]))",
          new="            iterable, itertools.repeat(StopSentinel()))"),
-    dict(rule="C13.tail", name="iter-dropped", expect="fire", path=_LP,
+    dict(rule="C13.tail", name="iter-dropped-chain-is-iterator-twin", expect="silent", path=_LP,
          old="        iterator_with_stops = iter(iterator_with_stops)\n", new=""),
     dict(rule="C13.reset", name="exit-resets-only-on-error", expect="fire", path=_LP,
          old="        self.finish_and_reset()\n        if exc:\n            raise exc\n        return True\n",
